@@ -1558,7 +1558,7 @@ var faultKinds = []string{"deadline", "canceled", "generic", "block"}
 // selection plus every position with a wrong-share submission in the quick tier.
 func faultPlan(thorough, peer bool) [][3]string {
 	subsm := []string{"valid", "wrong_share", "other_fork", "field"}
-	maxK := 4
+	maxK := 3
 	if thorough {
 		maxK = 6
 	}
@@ -1569,7 +1569,7 @@ func faultPlan(thorough, peer bool) [][3]string {
 				continue // a hanging lookup costs the handler's receive timeout
 			}
 			for si, sm := range subsm {
-				if thorough || si == (k+ki)%4 || (sm == "wrong_share" && (kind == "deadline" || kind == "canceled" || (kind == "block" && !peer))) {
+				if thorough || (si == (k+ki)%4 && (k+ki)%2 == 0) || (sm == "wrong_share" && (kind == "deadline" || kind == "canceled" || (kind == "block" && !peer))) {
 					out = append(out, [3]string{strconv.Itoa(k), kind, sm})
 				}
 			}
@@ -1807,7 +1807,11 @@ func (e *env) genCases(perGenLeaves int) genOut {
 		// the gater window on absolute slots, validly signed objects inside: the edges of the window
 		// and slots so large that any time arithmetic on them wraps
 		now := e.baseSlot / e.spe
-		for _, ds := range []uint64{0, (now+2)*e.spe + e.spe - 1, (now + 3) * e.spe, (now+3)*e.spe + 1, 1 << 31, 1 << 53, 1 << 60, 1<<63 - 1, 1 << 63, 1<<63 + 12345, 1<<64 - 1} {
+		slots := []uint64{0, (now+2)*e.spe + e.spe - 1, (now + 3) * e.spe, 1 << 53, 1 << 60, 1<<63 - 1, 1 << 63, 1<<64 - 1}
+		if perGenLeaves > 100 {
+			slots = append(slots, (now+3)*e.spe+1, 1<<31, 1<<63+12345)
+		}
+		for _, ds := range slots {
 			one("gate_slot:"+strconv.FormatUint(ds, 10), func(c *CaseSpec, _ *ItemSpec) { c.DutySlot = strconv.FormatUint(ds, 10) })
 		}
 		one("duty_type_signature_raw", func(c *CaseSpec, _ *ItemSpec) { c.DutyType = int(core.DutySignature) })
